@@ -198,6 +198,28 @@ claim("C05",
       "correspondence; nesting modelled to depth 2; mixed-dtype lists judged by the oracle only; explicit guards exclude listed findings.",
       "Lean 4 theorems + kernel-checked obligations over constants regenerated from /repo + correspondence check")
 
+
+claim("C01",
+      "Lean 4 theorems over an arena model with separate back-pointer and child list: every valid-use edit history of any length "
+      "(add, insert, remove, removeAll, setChildren, sort, reestablishBlockOrder, moveTo) keeps parent/child agreement and "
+      "duplicate-freeness; remove detaches; predicate, generation, deep-membership and ancestor queries meet their naive-walk "
+      "specs; the excluded points of the listed findings provably break the invariant. Tied to the real Composite, HexBlock, "
+      "HexAssembly and Core objects by a whole-tree state comparison after every operation, random traversal queries, copy/pickle "
+      "points, plus an independent oracle.",
+      "locator and grid content (C07); the sort comparator is a parameter (ranks from the real __lt__); Core.add bookkeeping (C14); "
+      "parameter payload of copies (C16); Block geometry bookkeeping; whatever of copy/pickle is not yet carried by a theorem is "
+      "correspondence- and oracle-only (see evidence 'partial').")
+claim("C16",
+      "Lean 4 theorems over a model with back-up stacks for parameters, caches and grids: for any program of assignments and "
+      "arbitrarily nested scopes a scope restores every non-kept parameter, keeps the kept ones, restores cache and grid and "
+      "returns all back-up chains to their entry state (LIFO); deep copies are equal and independent; serial numbers are fresh and "
+      "unique over create/deepcopy histories; read-only refuses every assignment. Tied to real reactor objects by per-step dumps of "
+      "every parameter of every touched object, a snapshot oracle and an API-level stream (number densities, temperatures, heights, "
+      "hex and offset-Cartesian pitch).",
+      "values are equality codes (pickle/deepcopy fidelity of leaf values is exercised, not proved); custom setters and API "
+      "mutators oracle-only; material caches oracle-only; serial uniqueness excludes pickle and DB load, which preserve serials by "
+      "design; MPI; listed findings excluded.")
+
 NOT_YET = {}
 
 ALL = [f"C{n:02d}" for n in range(1, 21)]
